@@ -4,7 +4,7 @@ CONSTANTS
   Lens = {5, 7, 14}
   MaxMsgs = 2
   MaxDup = 1
-  SeqChoices = {0, 1, 7}
+  SeqChoices = {0, 1}
   Pads = {"none", "ff"}
 VIEW View
 INVARIANT NoFabrication
